@@ -72,11 +72,11 @@ theorem wf_ret_cases {α : Type} (left : Int) (p ext : Bytes) (f : Int → Bytes
 section SetOf
 variable (tags : List Tag) (el : Elem) (edec : Node → Bytes → Node × Rc × Nat) (tm : Int)
 
-theorem setOf_phase0 (hs : tags.length + (if tm == 1 then 1 else 0) ≤ 1) (s : SetOfSt) (p ext : Bytes)
+theorem setOf_phase0 (s : SetOfSt) (p ext : Bytes)
     (hph : s.ctx.phase = 0) : StepRel (setOfIt tags el edec tm) s p ext := by
   obtain ⟨⟨ph, st, lf⟩, elems, cur⟩ := s
   simp only at hph; subst hph
-  rcases checkTags_cases tags st tm 1 p ext hs with ⟨hm, hc0, hst⟩ | ⟨hnm, heq⟩
+  rcases checkTags_cases tags st tm 1 p ext with ⟨hm, hc0, hst⟩ | ⟨hnm, heq⟩
   · apply stepRel_wait
     unfold setOfIt
     simp only [hm, hc0, hst]
@@ -284,10 +284,10 @@ theorem setOf_phase2 (s : SetOfSt) (p ext : Bytes) (hph : s.ctx.phase = 2) :
     · intro s' n; rw [e]; simp only [hneg, if_false]; intro hh; cases hh
     · rw [e, e]; simp only [hneg, if_false]
 
-theorem setOf_rel (hs : tags.length + (if tm == 1 then 1 else 0) ≤ 1) (hd : LawfulRc ⟨edec⟩)
+theorem setOf_rel (hd : LawfulRc ⟨edec⟩)
     (s : SetOfSt) (p ext : Bytes) : StepRel (setOfIt tags el edec tm) s p ext := by
   by_cases hph0 : s.ctx.phase = 0
-  · exact setOf_phase0 tags el edec tm hs s p ext hph0
+  · exact setOf_phase0 tags el edec tm s p ext hph0
   by_cases hph1 : s.ctx.phase = 1
   · by_cases hodd : s.ctx.step % 2 = 1
     · rw [stepRel_iff, setOf_at_micro2 tags el edec tm s p hph1 hodd, setOf_at_micro2 tags el edec tm s _ hph1 hodd]
@@ -393,17 +393,17 @@ theorem setOf_decr (hd : LawfulRc ⟨edec⟩) (hp : ∀ q n' k, edec .none q = (
   · unfold setOfIt at h
     split at h <;> first | contradiction | cases h
 
-theorem setOf_itLaws (hs : tags.length + (if tm == 1 then 1 else 0) ≤ 1) (hd : LawfulRc ⟨edec⟩)
+theorem setOf_itLaws (hd : LawfulRc ⟨edec⟩)
     (hp : ∀ q n' k, edec .none q = (n', .ok, k) → 1 ≤ k) : ItLaws (setOfIt tags el edec tm) setOfMu :=
   itLaws_mk _ _ (setOfIt_bound tags el edec tm (fun n p => hd.consumed_le n p))
-    (setOf_decr tags el edec tm hd hp) (setOf_rel tags el edec tm hs hd)
+    (setOf_decr tags el edec tm hd hp) (setOf_rel tags el edec tm hd)
 
 theorem setOfSt_roundtrip (s : SetOfSt) : SetOfSt.ofNode s.toNode = s := rfl
 
 /-- SET OF / SEQUENCE OF with a single-tag chain over a lawful element decoder is a lawful restartable decoder -/
-theorem setOfDec_lawfulRc (hs : tags.length + (if tm == 1 then 1 else 0) ≤ 1) (hd : LawfulRc ⟨edec⟩)
+theorem setOfDec_lawfulRc (hd : LawfulRc ⟨edec⟩)
     (hp : ∀ q n' k, edec .none q = (n', .ok, k) → 1 ≤ k) : LawfulRc (⟨setOfDec tags el edec tm⟩ : Dec Node) := by
-  have h := lawfulRc_wrap _ (lawfulRc_of_itLaws _ _ (setOf_itLaws tags el edec tm hs hd hp))
+  have h := lawfulRc_wrap _ (lawfulRc_of_itLaws _ _ (setOf_itLaws tags el edec tm hd hp))
     SetOfSt.ofNode SetOfSt.toNode setOfSt_roundtrip
   have e : (⟨setOfDec tags el edec tm⟩ : Dec Node) =
       ⟨fun n p => (SetOfSt.toNode ((itDec (setOfIt tags el edec tm) setOfMu).step (SetOfSt.ofNode n) p).1,
@@ -418,12 +418,12 @@ end SetOf
 section Choice
 variable (tags : List Tag) (es : List Elem) (xs : Int) (t2e : List T2M) (mdec : MDec) (tm : Int)
 
-theorem choice_phase0 (hs : tags.length + (if tm == 1 then 1 else 0) ≤ 1) (s : ChoiceSt) (p ext : Bytes)
+theorem choice_phase0 (s : ChoiceSt) (p ext : Bytes)
     (hph : s.ctx.phase = 0) : StepRel (choiceIt tags es xs t2e mdec tm) s p ext := by
   obtain ⟨⟨ph, st, lf⟩, pres, m⟩ := s
   simp only at hph; subst hph
   by_cases htg : (tm != 0 || tags.length != 0) = true
-  · rcases checkTags_cases tags st tm (-1) p ext hs with ⟨hm, hc0, hst⟩ | ⟨hnm, heq⟩
+  · rcases checkTags_cases tags st tm (-1) p ext with ⟨hm, hc0, hst⟩ | ⟨hnm, heq⟩
     · apply stepRel_wait
       unfold choiceIt
       simp only [htg, if_true, hm, hc0, hst]
@@ -670,10 +670,10 @@ theorem choice_p3_rel (s : ChoiceSt) (p ext : Bytes) (hph : s.ctx.phase = 3) :
     · intro s' n; unfold choiceP3; simp only [h1, h2, h3, if_false, Bool.false_eq_true]; intro hh; cases hh
     · unfold choiceP3; simp only [h1, h2, h3, if_false, Bool.false_eq_true]
 
-theorem choice_rel (hs : tags.length + (if tm == 1 then 1 else 0) ≤ 1) (hm : ∀ i, LawfulRc ⟨mdec i⟩)
+theorem choice_rel (hm : ∀ i, LawfulRc ⟨mdec i⟩)
     (s : ChoiceSt) (p ext : Bytes) : StepRel (choiceIt tags es xs t2e mdec tm) s p ext := by
   by_cases hph0 : s.ctx.phase = 0
-  · exact choice_phase0 tags es xs t2e mdec tm hs s p ext hph0
+  · exact choice_phase0 tags es xs t2e mdec tm s p ext hph0
   by_cases hph1 : s.ctx.phase = 1
   · rw [stepRel_iff, choice_at_p1 tags es xs t2e mdec tm s p hph1, choice_at_p1 tags es xs t2e mdec tm s _ hph1]
     exact choice_p1_rel tags es xs t2e mdec tm s p ext hph1
@@ -743,15 +743,15 @@ theorem choice_decr (s : ChoiceSt) (p : Bytes) (s' : ChoiceSt) (n : Nat)
   · unfold choiceIt at h
     split at h <;> first | contradiction | cases h
 
-theorem choice_itLaws (hs : tags.length + (if tm == 1 then 1 else 0) ≤ 1) (hm : ∀ i, LawfulRc ⟨mdec i⟩) :
+theorem choice_itLaws (hm : ∀ i, LawfulRc ⟨mdec i⟩) :
     ItLaws (choiceIt tags es xs t2e mdec tm) choiceMu :=
   itLaws_mk _ _ (choiceIt_bound tags es xs t2e mdec tm (fun i n p => (hm i).consumed_le n p))
-    (choice_decr tags es xs t2e mdec tm) (choice_rel tags es xs t2e mdec tm hs hm)
+    (choice_decr tags es xs t2e mdec tm) (choice_rel tags es xs t2e mdec tm hm)
 
 /-- CHOICE with at most one own tag over lawful alternative decoders is a lawful restartable decoder -/
-theorem choiceDec_lawfulRc (hs : tags.length + (if tm == 1 then 1 else 0) ≤ 1) (hm : ∀ i, LawfulRc ⟨mdec i⟩) :
+theorem choiceDec_lawfulRc (hm : ∀ i, LawfulRc ⟨mdec i⟩) :
     LawfulRc (⟨choiceDec tags es xs t2e mdec tm⟩ : Dec Node) := by
-  have h := lawfulRc_wrap _ (lawfulRc_of_itLaws _ _ (choice_itLaws tags es xs t2e mdec tm hs hm))
+  have h := lawfulRc_wrap _ (lawfulRc_of_itLaws _ _ (choice_itLaws tags es xs t2e mdec tm hm))
     ChoiceSt.ofNode ChoiceSt.toNode (fun _ => rfl)
   have e : (⟨choiceDec tags es xs t2e mdec tm⟩ : Dec Node) =
       ⟨fun n p => (ChoiceSt.toNode ((itDec (choiceIt tags es xs t2e mdec tm) choiceMu).step (ChoiceSt.ofNode n) p).1,
@@ -858,11 +858,11 @@ theorem seqFind_spec (es : List Elem) (t2e : List T2M) (ht : ∀ e ∈ t2e, e.el
 section Seq
 variable (tags : List Tag) (es : List Elem) (fe : Int) (t2e : List T2M) (mdec : MDec) (tm : Int)
 
-theorem seq_phase0 (hs : tags.length + (if tm == 1 then 1 else 0) ≤ 1) (s : SeqSt) (p ext : Bytes)
+theorem seq_phase0 (s : SeqSt) (p ext : Bytes)
     (hph : s.ctx.phase = 0) : StepRel (seqIt tags es fe t2e mdec tm) s p ext := by
   obtain ⟨⟨ph, st, lf⟩, ms, ov⟩ := s
   simp only at hph; subst hph
-  rcases checkTags_cases tags st tm 1 p ext hs with ⟨hm, hc0, hst⟩ | ⟨hnm, heq⟩
+  rcases checkTags_cases tags st tm 1 p ext with ⟨hm, hc0, hst⟩ | ⟨hnm, heq⟩
   · apply stepRel_wait
     unfold seqIt
     simp only [hm, hc0, hst]
@@ -1178,11 +1178,11 @@ theorem stepRel_of_or {σ : Type} (it : σ → Bytes → Out σ) (s : σ) (p ext
   · exact stepRel_wait it s p ext (by rw [ha, h])
   · rw [stepRel_iff, ha, hb]; exact h
 
-theorem seq_rel (hs : tags.length + (if tm == 1 then 1 else 0) ≤ 1) (hm : ∀ i, LawfulRc ⟨mdec i⟩)
+theorem seq_rel (hm : ∀ i, LawfulRc ⟨mdec i⟩)
     (ht : ∀ e ∈ t2e, e.elNo < es.length) (s : SeqSt) (p ext : Bytes) :
     StepRel (seqIt tags es fe t2e mdec tm) s p ext := by
   by_cases hph0 : s.ctx.phase = 0
-  · exact seq_phase0 tags es fe t2e mdec tm hs s p ext hph0
+  · exact seq_phase0 tags es fe t2e mdec tm s p ext hph0
   by_cases hph1 : s.ctx.phase = 1
   · by_cases hge : s.edxOv.getD (s.ctx.step / 2) ≥ es.length
     · have e : ∀ q, seqIt tags es fe t2e mdec tm s q =
@@ -1393,16 +1393,16 @@ theorem seq_decr (hm : ∀ i, LawfulRc ⟨mdec i⟩) (ht : ∀ e ∈ t2e, e.elNo
       split <;> first | contradiction | rfl | (exfalso; apply hph3; simp_all)
     rw [e] at h; cases h
 
-theorem seq_itLaws (hs : tags.length + (if tm == 1 then 1 else 0) ≤ 1) (hm : ∀ i, LawfulRc ⟨mdec i⟩)
+theorem seq_itLaws (hm : ∀ i, LawfulRc ⟨mdec i⟩)
     (ht : ∀ e ∈ t2e, e.elNo < es.length) : ItLaws (seqIt tags es fe t2e mdec tm) (seqMu es.length) :=
   itLaws_mk _ _ (seqIt_bound tags es fe t2e mdec tm (fun i n p => (hm i).consumed_le n p))
-    (seq_decr tags es fe t2e mdec tm hm ht) (seq_rel tags es fe t2e mdec tm hs hm ht)
+    (seq_decr tags es fe t2e mdec tm hm ht) (seq_rel tags es fe t2e mdec tm hm ht)
 
 /-- SEQUENCE with a single-tag chain, a `tag2el` table pointing into the member table and lawful member
     decoders is a lawful restartable decoder -/
-theorem seqDec_lawfulRc (hs : tags.length + (if tm == 1 then 1 else 0) ≤ 1) (hm : ∀ i, LawfulRc ⟨mdec i⟩)
+theorem seqDec_lawfulRc (hm : ∀ i, LawfulRc ⟨mdec i⟩)
     (ht : ∀ e ∈ t2e, e.elNo < es.length) : LawfulRc (⟨seqDec tags es fe t2e mdec tm⟩ : Dec Node) := by
-  have h := lawfulRc_wrap _ (lawfulRc_of_itLaws _ _ (seq_itLaws tags es fe t2e mdec tm hs hm ht))
+  have h := lawfulRc_wrap _ (lawfulRc_of_itLaws _ _ (seq_itLaws tags es fe t2e mdec tm hm ht))
     (SeqSt.ofNode es.length) SeqSt.toNode (fun _ => rfl)
   have e : (⟨seqDec tags es fe t2e mdec tm⟩ : Dec Node) =
       ⟨fun n p => (SeqSt.toNode ((itDec (seqIt tags es fe t2e mdec tm) (seqMu es.length)).step
